@@ -168,6 +168,16 @@ def run(ctx):
                   "a store lookup that returns the entry's value applies is_alive to the same entry (under the same shard guard) before returning it", f.where(bb), form)
     ctx.floor("R09.5", "value-returning store lookups", n_read, 2)
     no_overwrite(ctx, "R09.7")
+    # ---- R09.8 a TTL added, changed or removed by an upsert reaches the expiry index (shared with C08 R08.3/R08.8):
+    #      otherwise the sweeper later acts on the old deadline and hides a key that is not expired
+    import c08
+    for o in ctx.own_of("c08"):
+        if o["rule"] == "R08.3" and "classification-drives-index" in o["key"]:
+            ctx._add(o["status"], "R09.8", o["key"].split("|", 1)[1], o["desc"], o["where"], o["detail"])
+    for o in ctx.own_of("c10"):
+        if o["rule"] == "R10.1" and any(x in o["key"] for x in ("move-old-to-new", "insert-under-own-expiry", "shard-from-expiry")):
+            ctx._add(o["status"], "R09.8", o["key"].split("|", 1)[1], o["desc"], o["where"], o["detail"])
+
     # ---- R09.6 boundary agreement --------------------------------------------------------------------------
     sweeps = []
     for n, f in F.fns.items():
@@ -192,9 +202,7 @@ def no_overwrite(ctx, RULE):
     """hooks remove store entries by key: that hits the right incarnation only if a store insert never overwrites
     an existing entry (C05 R05.3)"""
     import c05
-    sub = type(ctx)(ctx.prop, ctx.facts, ctx.tier, ctx.config)
-    c05.run(sub)
-    for o in sub.obligations:
+    for o in ctx.own_of("c05"):
         if o["rule"] == "R05.3":
             ctx._add(o["status"], RULE, o["key"].split("|", 1)[1],
                      o["desc"] + " [needed here because the eviction/expiry hooks remove the store entry by key: an overwritten entry would make a stale id remove a newer incarnation]", o["where"], o["detail"])
